@@ -5,3 +5,5 @@ import KdVerif.Props.C09
 import KdVerif.Props.C19
 import KdVerif.Props.C04
 import KdVerif.Props.C05
+import KdVerif.Props.C12
+import KdVerif.Props.C14
